@@ -15,7 +15,8 @@ NUM_RICH = ['0', '1', '42', '1.5', '.5', '1.', '1e3', '1E+5', '1e-5', '0x1F',
             '0X0', '017', '0.0', '9']
 STR_BASIC = ["'s'", '"t"']
 STR_RICH = ["''", '"a"', "'a\"b'", '"\\n\\t\\\\\\"\\/\\x41é"', "'\\0'",
-            "'a\\\nb'", "'a\\\r\nb'", '"a\\\u2028b"', "'\\u0041'"]
+            "'a\\\nb'", "'a\\\r\nb'", '"a\\\u2028b"', "'\\u0041'",
+            "'\x0c\x0b'", '"\x85\x1c"', "'\x1d\x1e'"]
 REGEX_BASIC = ['/re/', '/a/g']
 REGEX_RICH = ['/re/', '/a\\/b/g', '/[/]/', '/=/', '/ /', '/\\s+/gim', '/a/i']
 
@@ -32,7 +33,8 @@ GAP_PLAIN = {'sp': ' ', 'none': '', 'tab': '\t', 'nbsp': ' ',
              'cmt': ' /*c*/ ', '2sp': '  '}
 GAP_BREAK = {'lf': '\n', 'cr': '\r', 'crlf': '\r\n', 'ls': '\u2028',
              'ps': '\u2029', 'cmtlf': ' /*\n*/ ', 'line': ' //c\n',
-             'lfcmt': '\n/*c*/ ', 'cmt_lf': ' /*c*/\n', 'lflf': '\n\n'}
+             'lfcmt': '\n/*c*/ ', 'cmt_lf': ' /*c*/\n', 'lflf': '\n\n',
+             'ffcmt': '/*\x0c\x85*/\n', 'vtline': '//\x0b\x1c\n'}
 
 
 def spell(tok, k, pools):
